@@ -1290,9 +1290,188 @@ def named_construct(name):
         from sqlalchemy.schema import CreateTable
 
         return "ddl", CreateTable(sa.Table("tv", sa.MetaData(), sa.Column("data", mssql.VARBINARY("max"))))
+    if name == "literal_execute_escaped_name":
+        return "esc", sa.select(sa.bindparam("x y", 5, literal_execute=True))
     if name == "limit_for_update_of_table":
         return "select", sa.select(t1.c.id).order_by(t1.c.id).limit(2).offset(1).with_for_update(of=t1)
     raise HarnessError(name)
+
+
+ESC_COLS = [("a b", int), ("x.y", str), ("p[0]", int), ("q(r)", str), ("pct%", int), ("c:d", int)]  # escaped: a_b x_y p_0_ qArZ pctP cCd (collision free)
+ESC_BIND_NAMES = ["my param", "b:1", "v%1", "z(1)", "k.1", "arr[2]"]  # escaped: my_param bC1 vP1 zA1Z k_1 arr_2_
+
+
+class EscB(B):
+    """second table family: column names and explicit bindparam() names that need bind-name escaping"""
+
+    def __init__(self, choices, pinned=False, ctx=None):
+        super().__init__(choices)
+        sa = self.sa
+        self.pinned = pinned
+        self.ctx = ctx
+        md = sa.MetaData()
+        self.te = sa.Table("te", md, sa.Column("id", sa.Integer, primary_key=True), *[sa.Column(n, sa.Integer if t is int else sa.String(30)) for n, t in ESC_COLS])
+        self.te2 = sa.Table("t e2", md, sa.Column("id", sa.Integer, primary_key=True), sa.Column("te.id", sa.Integer), sa.Column("val (x)", sa.Integer))
+        self.used_binds = set()
+
+    def ecol(self, pytype=None):
+        names = [n for n, t in ESC_COLS if pytype is None or t is pytype]
+        return self.te.c[names[self.pick(len(names))]]
+
+    def ebind(self, value, **kw):
+        """explicit bindparam with a name needing escaping (each name once per statement)"""
+        sa = self.sa
+        free = [n for n in ESC_BIND_NAMES if n not in self.used_binds] or [self.name("late p")]
+        n = free[self.pick(len(free))]
+        self.used_binds.add(n)
+        self.k("explicit_escaped_bind")
+        return sa.bindparam(n, value, **kw)
+
+    def evalue(self, col):
+        sa = self.sa
+        is_int = col.type.python_type is int
+        o = self.pick(6)
+        if o == 0:
+            return 7 if is_int else "v"
+        if o == 1:
+            return self.ebind(3 if is_int else "w")
+        if o == 2:
+            return sa.literal(1) + self.ebind(2) if is_int else sa.func.lower(self.ebind("W"))
+        if o == 3:
+            return sa.bindparam(None, 4 if is_int else "u")
+        if o == 4:
+            if self.pinned:
+                self.k("literal_execute_escaped")
+                return self.ebind(5 if is_int else "le", literal_execute=True)
+            if self.ctx is not None:
+                self.ctx.exclude("literal_execute=True bindparam with a name needing escaping + render_postcompile: KeyError (known finding, also C04/literal-execute-escaped-name)")
+            return self.ebind(5 if is_int else "le")
+        return sa.null()
+
+    def ecrit(self):
+        sa = self.sa
+        c = self.ecol()
+        is_int = c.type.python_type is int
+        o = self.pick(9)
+        self.k("escaped_where")
+        if o == 0:
+            return c == (5 if is_int else "s")
+        if o == 1:
+            self.k("in")
+            return c.in_([1, 2, 3] if is_int else ["a", "b"])
+        if o == 2:
+            self.k("in")
+            return c.in_(self.ebind([1, 2] if is_int else ["a"], expanding=True))
+        if o == 3:
+            return c == self.ebind(9 if is_int else "e")
+        if o == 4:
+            return c.between(1, 5) if is_int else c.like("a%")
+        if o == 5:
+            self.k("in")
+            return c.not_in([]) if self.flag() else c.in_([None, 1] if is_int else [None, "n"])
+        if o == 6:
+            return sa.and_(self.te.c["a b"] > self.te.c["p[0]"], self.te.c["x.y"] != self.te.c["q(r)"])
+        if o == 7:
+            self.k("tuple", "in")
+            return sa.tuple_(self.te.c["a b"], self.te.c["x.y"]).in_([(1, "a"), (2, "b")])
+        self.k("subquery", "in")
+        return c.in_(sa.select(self.te2.c["val (x)" if is_int else "te.id"]).where(self.te2.c["te.id"] == self.ebind(1)))
+
+    def ereturning(self, stmt):
+        o = self.pick(4)
+        if o == 0:
+            return stmt
+        self.k("returning")
+        if o == 1:
+            return stmt.returning(self.te.c.id, self.ecol())
+        if o == 2:
+            return stmt.returning(self.te)
+        return stmt.returning((self.te.c["a b"] + 1).label("lbl (1)"), self.te.c["c:d"])
+
+    def statement(self):
+        sa = self.sa
+        te = self.te
+        self.k("escaped_names")
+        self.executemany = False
+        fam = self.pick(8)
+        if fam in (0, 1, 2):
+            self.k("insert")
+            ins = sa.insert
+            want_many = self.flag()  # drawn early so that short choice lists reach it
+            up = self.pick(6)
+            owner = {1: "postgresql", 2: "sqlite", 3: "mysql"}.get(up)
+            if owner == "postgresql":
+                from sqlalchemy.dialects.postgresql import insert as ins
+            elif owner == "sqlite":
+                from sqlalchemy.dialects.sqlite import insert as ins
+            elif owner == "mysql":
+                from sqlalchemy.dialects.mysql import insert as ins
+            self.owner = owner
+            stmt = ins(te)
+            ncols = 1 + self.pick(len(ESC_COLS))
+            start = self.pick(len(ESC_COLS))
+            cols = [te.c[ESC_COLS[(start + i) % len(ESC_COLS)][0]] for i in range(ncols)]
+            o = self.pick(6)
+            if o == 0:
+                stmt = stmt.values({c.name: self.evalue(c) for c in cols})
+            elif o == 1:
+                stmt = stmt.values({c: self.evalue(c) for c in cols})
+            elif o == 2:
+                self.k("multivalues")
+                stmt = stmt.values([{c.name: (1 if c.type.python_type is int else "a") for c in cols}, {c.name: (2 if c.type.python_type is int else "b") for c in cols}])
+            elif o == 3:
+                pass  # all columns bound, names taken from the column names
+            elif o == 4:
+                self.k("from_select")
+                stmt = stmt.from_select([c.name for c in cols[:2]], sa.select(self.te2.c["val (x)"], self.te2.c["te.id"]).where(self.te2.c["te.id"] > self.ebind(0)) if len(cols) >= 2 else sa.select(self.te2.c["val (x)"]))
+            else:
+                stmt = stmt.values(**{}) if False else stmt.values({cols[0].name: self.evalue(cols[0])})
+            if owner in ("postgresql", "sqlite"):
+                self.k("upsert_" + ("pg" if owner == "postgresql" else "sqlite"))
+                stmt = stmt.on_conflict_do_update(index_elements=[te.c.id], set_={cols[0].name: stmt.excluded[cols[0].name], "c:d": self.ebind(1)}, where=te.c["pct%"] > self.ebind(0))
+            elif owner == "mysql":
+                self.k("upsert_mysql")
+                stmt = stmt.on_duplicate_key_update({cols[0].name: stmt.inserted[cols[0].name], "c:d": 5})
+            stmt = self.ereturning(stmt)
+            if o in (0, 1, 3, 5) and want_many:
+                self.k("executemany")
+                self.executemany = True
+            return "esc", stmt
+        if fam in (3, 4):
+            self.k("update")
+            n = 1 + self.pick(3)
+            cols = [self.ecol() for _ in range(n)]
+            vals = {}
+            for c in cols:
+                vals[c if self.flag() else c.name] = (c + 1 if c.type.python_type is int and self.flag() else self.evalue(c))
+            stmt = sa.update(te).values(vals)
+            for _ in range(self.pick(3)):
+                stmt = stmt.where(self.ecrit())
+            if self.pick(4) == 0:
+                self.k("multitable")
+                stmt = stmt.where(self.te2.c["te.id"] == te.c.id).values({te.c["a b"]: self.te2.c["val (x)"]})
+            return "esc", self.ereturning(stmt)
+        if fam == 5:
+            self.k("delete")
+            stmt = sa.delete(te)
+            for _ in range(1 + self.pick(2)):
+                stmt = stmt.where(self.ecrit())
+            return "esc", self.ereturning(stmt)
+        self.k("select")
+        stmt = sa.select(te.c.id, self.ecol(), (self.ecol(int) + self.ebind(1)).label("sum (1)"))
+        for _ in range(1 + self.pick(3)):
+            stmt = stmt.where(self.ecrit())
+        o = self.pick(8)
+        if o & 1:
+            self.k("order_by")
+            stmt = stmt.order_by(self.ecol().desc())
+        if o & 2:
+            self.k("limit")
+            stmt = stmt.limit(self.ebind(5)).offset(2) if self.flag() else stmt.limit(3)
+        if o & 4:
+            self.k("join")
+            stmt = stmt.join(self.te2, self.te2.c["te.id"] == te.c.id).where(self.te2.c["val (x)"] > 0)
+        return "esc", stmt
 
 
 def sa_literal_label(sa):
@@ -1357,7 +1536,8 @@ def check_compile(case, ctx):
     choices = case if isinstance(case, list) else case["choices"]
     pinned_variants = None if isinstance(case, list) else case.get("variants")
     pinned = not isinstance(case, list) and case.get("pinned", False)
-    b = B(choices)
+    esc = not isinstance(case, list) and case.get("family") == "escnames"
+    b = EscB(choices, pinned=pinned, ctx=ctx) if esc else B(choices)
     with warnings.catch_warnings():
         warnings.simplefilter("ignore")
         try:
@@ -1389,11 +1569,22 @@ def check_compile(case, ctx):
             foreign = {v for v in VARIANTS if variant_dialect(v).name != b.owner and not (b.owner == "mysql" and variant_dialect(v).name == "mariadb")}
             skip |= foreign
             ctx.info("owner-restricted:" + b.owner)
+        jobs = []
         for variant in pinned_variants or VARIANTS:
             if variant in skip:
                 continue
+            if esc:
+                # escaped bind names: every paramstyle of every dialect variant (plus its default), under the drawn compile option
+                kw = {} if opt in ("plain", "paramstyle") else {"compile_kwargs": {opt: True}}
+                if getattr(b, "executemany", False):
+                    kw["for_executemany"] = True  # the flag the engine passes for executemany: enables the insertmanyvalues compile path
+                for ps in [None] + PARAMSTYLES:
+                    jobs.append((variant, (lambda v=variant, ps=ps, kw=kw: str(stmt.compile(dialect=variant_dialect(v, ps), **kw)))))
+            else:
+                jobs.append((variant, (lambda v=variant: compile_one(stmt, v, opt, ps_index))))
+        for variant, job in jobs:
             try:
-                compile_one(stmt, variant, opt, ps_index)
+                job()
                 outcomes.append("ok")
             except exc.SQLAlchemyError as e:
                 outcomes.append(type(e).__name__)
@@ -1428,6 +1619,17 @@ def check_compile(case, ctx):
         except Exception:
             text = "<default-dialect str() failed too>"
         raise Violation(sig, f"compile on {variant} ({opt_}) raised {sig.split('/')[1]}: {msg}\nkinds={kinds}\nstatement (default dialect): {text}", observed=tb, expected="str or SQLAlchemyError")
+
+
+_choice_lists = cases
+cases = st.one_of(
+    _choice_lists,
+    _choice_lists,
+    _choice_lists,
+    _choice_lists,
+    # second table family: names needing bind-name escaping (dict form keeps the decoding of plain list cases unchanged)
+    st.fixed_dictionaries({"family": st.just("escnames"), "choices": st.lists(st.integers(0, 255), min_size=8, max_size=60)}),
+)
 
 
 def subs(tier):
